@@ -76,6 +76,42 @@ def guards(C, R):
         R.check(okv, "r2", "G-DUP-VERTICES/%s" % f["path"].split("::")[-1], C.loc(n["sp"]),
                 "the vertex map given to make_duplicated_output_names_error does not include the vertices of fold components: a duplicate "
                 "output name that involves a fold's count output indexes a missing vertex (frontend panic)")
+    # G-CHAR-BOUNDARY: str::split_at(k) panics unless byte k is a char boundary (query text is arbitrary UTF-8). Every split_at
+    # in the query parser / frontend must use a literal k and sit in the then-branch of an `if` whose condition is a disjunction
+    # of starts_with(<ASCII literal of at least k bytes>) tests on the same string.
+    nsplit = 0
+    for f in C.fns:
+        if not f["path"].startswith(("trustfall_core::graphql_query::", "<trustfall_core::graphql_query::", FE, "<" + FE)) or "::tests" in f["path"]:
+            continue
+        for n, anc in walk_with_ctx(f["body"]):
+            if not (n.get("k") == "mcall" and (n.get("callee") or "").endswith("<impl str>::split_at")):
+                continue
+            nsplit += 1
+            k_ = strip(n["args"][0])
+            recv = ekey(n["recv"])
+            okb = False
+            if k_.get("k") == "lit" and isinstance(k_.get("v"), int):
+                prev = n
+                for a in reversed(anc):
+                    if a.get("k") == "if" and any(x is prev for x in walk(a["then"])):
+                        def disj(c):
+                            c = strip(c)
+                            if c.get("k") == "bin" and c.get("op") == "||":
+                                return disj(c["l"]) + disj(c["r"])
+                            return [c]
+                        parts = disj(a["cond"])
+                        good = []
+                        for p_ in parts:
+                            lit = strip(p_["args"][0]).get("v") if p_.get("k") == "mcall" and p_.get("name") == "starts_with" and p_.get("args") else None
+                            good.append(isinstance(lit, str) and lit.isascii() and len(lit) >= k_["v"] and ekey(p_["recv"]) == recv)
+                        if parts and all(good):
+                            okb = True
+                        break
+                    prev = a
+            R.check(okb, "r2", "G-CHAR-BOUNDARY/%s" % f["path"].split("::")[-1][:60], C.loc(n["sp"]),
+                    "`%s.split_at(..)` is not guarded by a test that the split point is a char boundary (an ASCII-prefix starts_with test on "
+                    "the same string with a literal index): query text such as \"été\" makes it panic" % recv)
+    R.floor("r2", "str::split_at sites in the query parser", nsplit, 1)
     # G-ROOT-DIRECTIVES
     p = C.fn("trustfall_core::graphql_query::query::parse_document")
     if p is None:
